@@ -49,11 +49,13 @@ def gen_module(rng, nnames, valid_bias=0.9):
             ds = [d % n if '%' in d else d for d in ds]
             if rng.random() < 0.25:   # a function too big to be inlined: calls go through its thunk
                 ds = [('B' + d[1:]) if d[0] == 'F' else d for d in ds]
+            if rng.random() < 0.4:    # data as a section of several items (named head + anonymous followers)
+                ds = [('S' + d[1:]) if d[0] == 'D' else d for d in ds]
         if rng.random() < 0.3:
             rng.shuffle(ds)
     else:
         for _ in range(rng.randint(1, 7)):
-            ds.append(rng.choice('ieffFFBDP') + str(rng.randrange(nnames)))
+            ds.append(rng.choice('ieffFFBDSP') + str(rng.randrange(nnames)))
     return 'L ' + ' '.join(ds)
 
 
@@ -90,15 +92,15 @@ EXH_ALPHABET = ['L e0 F0', 'L i0', 'L e0 F0 i1', 'L e1 B1 i0', 'L e1 F1', 'L i0 
 
 # a second small alphabet: declaration orders, data and proto exports, revoking the permission, the
 # generator interfaces
-EXH_ALPHABET2 = ['L f0 e0 F0', 'L e0 D0', 'L i0', 'L e0 P0', 'L F0 e0 i1', 'X 0 1', 'R 1', 'R 0', 'K 0 g', 'K 3 l']
+EXH_ALPHABET2 = ['L f0 e0 F0', 'L e0 S0', 'L i0', 'L e0 P0', 'L F0 e0 i1', 'X 0 1', 'R 1', 'R 0', 'K 0 g', 'K 3 l']
 
 # a third one aimed at histories that go on after an error: rejected loads (also of a module that
 # exports something new besides the clashing function), failed links (resolver answers before the
 # failing import), retries, interface-less links
 # with fixes/C13-2.patch: links after which nothing is executed (the importer first runs later)
-EXH_ALPHABET4 = ['R 1', 'L e0 D0', 'L e0 F0 e1 D1', 'L i0', 'L i0 i1', 'X 0 2', 'X 1 3', 'K 0 q', 'K 0 i', 'K 0 l']
+EXH_ALPHABET4 = ['R 1', 'L e0 D0', 'L e0 F0 e1 S1', 'L i0', 'L i0 i1', 'X 0 2', 'X 1 3', 'K 0 q', 'K 0 i', 'K 0 l']
 
-EXH_ALPHABET3 = ['L e0 F0', 'L e1 D1 e0 B0', 'L i1 i0', 'L i0', 'X 0 2', 'R 1', 'K 0 i', 'K 2 i', 'K 2 n', 'K 3 g']
+EXH_ALPHABET3 = ['L e0 F0', 'L e1 S1 e0 B0', 'L i1 i0', 'L i0', 'X 0 2', 'R 1', 'K 0 i', 'K 2 i', 'K 2 n', 'K 3 g']
 
 
 def exhaustive(maxlen, alphabet=None):
